@@ -107,14 +107,34 @@ def _make_short_name_mapper():
     variable_names: dict[str, str] = {}
 
     def renamer(name):
-        # TODO: simplify this. No need to use _cleanup_variable_name?
-        var_name = _cleanup_variable_name(name)
-        if var_name in variable_names:
-            return variable_names[var_name]
+        # Keyed by the ONNX name: names that only differ in characters that the clean-up
+        # replaces (e.g. "a.b" and "a_b") must not share a variable.
+        if name in variable_names:
+            return variable_names[name]
         new_name = f"v{len(variable_names) + 1}"
-        assert var_name is not None  # TODO(rama): This looks suspect.
-        variable_names[var_name] = new_name
+        variable_names[name] = new_name
         return new_name
+
+    return renamer
+
+
+def _make_unique_name_mapper():
+    """Returns a renamer that cleans up names and keeps distinct ONNX names distinct."""
+    assigned: dict[str, str] = {}
+    taken: set[str] = set()
+
+    def renamer(name):
+        if name in assigned:
+            return assigned[name]
+        base = _cleanup_variable_name(name)
+        candidate = base
+        counter = 0
+        while candidate in taken:
+            candidate = f"{base}_{counter}"
+            counter += 1
+        assigned[name] = candidate
+        taken.add(candidate)
+        return candidate
 
     return renamer
 
@@ -277,7 +297,7 @@ class _Exporter:
         if rename:
             rename_function = _make_short_name_mapper()
         else:
-            rename_function = _cleanup_variable_name
+            rename_function = _make_unique_name_mapper()
         self._rename_variable = self._handle_attrname_conflict(rename_function)
         self.inline_const = inline_const
         self.constants: dict[str, str] = {}
